@@ -224,15 +224,31 @@ var piStmts = map[string]string{
 	"q16": "explain select * from tbl_ks where id = 1",
 	"q17": "select * from tbl_ks_range where id between 50 and 150",
 	"q18": "select * from db_ks.tbl_ks where id = 1",
+	// mycat-style rules: routing by key, by the DATABASE() hint (physical db -> table index lookup on the rule),
+	// through a linked rule, and through the trailing /* !mycat:sql=... */ hint statement
+	"q19": "select * from tbl_mycat where id = 5",
+	"q20": "select * from tbl_mycat where DATABASE() = 'db_mycat_2'",
+	"q21": "select * from tbl_mycat_child where DATABASE() = db_mycat_1",
+	"q22": "select * from tbl_mycat where a = 1 /* !mycat:sql=select 1 from tbl_mycat where id = 3 */",
+	"q23": "insert into tbl_mycat (id, a) values (6, 'x')",
+	"q24": "select * from db_mycat.tbl_mycat_long where DATABASE() = `db_mycat_3`",
+	"q25": "select * from tbl_mycat_murmur where id = 7",
+	"q26": "select * from tbl_mycat_string where id = 'abc'",
+	"q27": "update tbl_mycat_global set a = 1 where id = 2",
+	"q28": "fieldlist:tbl_mycat",
 }
 
-var piDbs = map[string]string{"d1": "db_ks", "d2": "db_b"}
+var piDbs = map[string]string{"d1": "db_ks", "d2": "db_b", "d3": "db_mycat"}
 
 func piStmtClass(id string) string {
 	sql := piStmts[id]
 	switch {
 	case strings.HasPrefix(sql, "fieldlist:"):
 		return "field-list"
+	case strings.Contains(sql, "mycat:sql="):
+		return "mycat hint statement"
+	case strings.Contains(sql, "DATABASE()"):
+		return "DATABASE() hint select"
 	case strings.Contains(sql, "t_plain") || strings.Contains(sql, "t_other"):
 		return "unsharded " + strings.Fields(sql)[0]
 	default:
@@ -251,8 +267,8 @@ func piNamespaceConfig(variant int) *models.Namespace {
 	cfg := &models.Namespace{
 		Name:           piNsName,
 		Online:         true,
-		AllowedDBS:     map[string]bool{"db_ks": true, "db_b": true},
-		DefaultPhyDBS:  map[string]string{"db_ks": "db_ks", "db_b": "db_b"},
+		AllowedDBS:     map[string]bool{"db_ks": true, "db_b": true, "db_mycat": true},
+		DefaultPhyDBS:  map[string]string{"db_ks": "db_ks", "db_b": "db_b", "db_mycat": "db_mycat_0"},
 		DefaultSlice:   "slice-0",
 		DefaultCharset: "utf8",
 		Users: []*models.User{{UserName: "u_pi", Password: "pw", Namespace: piNsName,
@@ -267,6 +283,15 @@ func piNamespaceConfig(variant int) *models.Namespace {
 			{DB: "db_ks", Table: "tbl_ks_global", Type: "global", Locations: []int{2, 2}, Slices: slices},
 			{DB: "db_ks", Table: "tbl_ks_range", Type: "range", Key: "id", Locations: []int{2, 2}, Slices: slices, TableRowLimit: 100},
 			{DB: "db_ks", Table: "tbl_ks_year", Type: "date_year", Key: "create_time", Slices: slices, DateRange: []string{"2014-2017", "2018-2019"}},
+			{DB: "db_mycat", Table: "tbl_mycat", Type: "mycat_mod", Key: "id", Locations: []int{2, 2}, Slices: slices, Databases: []string{"db_mycat_[0-3]"}},
+			{DB: "db_mycat", Table: "tbl_mycat_child", Type: "linked", Key: "id", ParentTable: "tbl_mycat"},
+			{DB: "db_mycat", Table: "tbl_mycat_long", Type: "mycat_long", Key: "id", Locations: []int{2, 2}, Slices: slices,
+				Databases: []string{"db_mycat_[0-3]"}, PartitionCount: "4", PartitionLength: "256"},
+			{DB: "db_mycat", Table: "tbl_mycat_murmur", Type: "mycat_murmur", Key: "id", Locations: []int{2, 2}, Slices: slices,
+				Databases: []string{"db_mycat_0", "db_mycat_1", "db_mycat_2", "db_mycat_3"}, Seed: "0", VirtualBucketTimes: "160"},
+			{DB: "db_mycat", Table: "tbl_mycat_string", Type: "mycat_string", Key: "id", Locations: []int{2, 2}, Slices: slices,
+				Databases: []string{"db_mycat_[0-3]"}, PartitionCount: "4", PartitionLength: "256", HashSlice: "20"},
+			{DB: "db_mycat", Table: "tbl_mycat_global", Type: "global", Locations: []int{2, 2}, Slices: slices, Databases: []string{"db_mycat_[0-3]"}},
 		},
 	}
 	if variant%2 == 1 { // the second configuration has one more rule, so that a load is visible in the snapshot
@@ -514,7 +539,7 @@ func TestVerifPlanIsolation(t *testing.T) {
 		}
 		// reference: every statement planned alone, right after the load (defines F)
 		ref := env.session()
-		for _, db := range []string{"d1", "d2"} {
+		for _, db := range []string{"d1", "d2", "d3"} {
 			for _, id := range stmtIDs {
 				bracket(ref, "ref", id, db, "ref")
 			}
